@@ -5,6 +5,6 @@ cd "$(dirname "$0")/.."
 IDS=${@:-$(ls seeded | grep -E '^C[0-9]+-')}
 for id in $IDS; do
   home=$(python3 -c "import json;print(json.load(open('seeded/$id/meta.json')).get('property','${id%%-*}'))")
-  case "$id" in C02-m4|C05-m6|C01-m10|C13-m12) home=C12;; C14-m7) home=C08;; C14-m9|C18-m11) home=C03;; C14-m10) home=C15;; C14-m12) home=C07;; esac   # see DESIGN s9: these do not break the property they were filed under
+  case "$id" in C02-m4|C05-m6|C01-m10|C13-m12|C17-m11) home=C12;; C14-m7) home=C08;; C14-m9|C18-m11) home=C03;; C14-m10) home=C15;; C14-m12) home=C07;; esac   # see DESIGN s9: these do not break the property they were filed under
   tools/try_mutant.sh "$id" "$home" 2>&1 | tail -1 | cut -c1-160
 done
